@@ -1,5 +1,6 @@
 \* repaired design (own proposal logged), validator 2 is proposer of (1,0); rounds 0, one height,
 \* one valid peer value, votes from peers 1 and 3; every crash point, up to 2 crashes
+\* Measured (5 inputs): 805,081 distinct states, depth 49.
 CONSTANTS
   NV = 4
   Power <- DrvUnitPower
